@@ -7,7 +7,8 @@
 //     named trusted become Authenticated, named distrusted become ManuallyDistrusted; nothing else changes, nothing is held back;
 //   * sender key not Authenticated: nothing changes; the in-scope decisions are held back under the sender key, and
 //       - take effect (and leave the postponed store) when the sender key is authenticated afterwards,
-//       - are discarded and never applied when the sender key is distrusted instead (even if it is authenticated later).
+//       - are discarded and never applied when the sender key is distrusted instead (even if it is authenticated later),
+//       - do not fire when some other key is authenticated (in particular one that is authenticated already).
 // Usage: replay_trust_messages all | <scenario number>.   Exit 1 and "VIOLATED scenario=<n> ..." lines on a mismatch.
 #include "QXmppAtmManager.h"
 #include "QXmppAtmTrustMemoryStorage.h"
@@ -135,6 +136,19 @@ static void run(int scenario, int si, int li, Shape shape, Later later)
     }
     if (!accepted || authenticated) {
         return;
+    }
+    // an unrelated key that is already authenticated is authenticated once more (e.g. a device re-announcing its own key):
+    // no held-back decision may fire -- its sender key was not authenticated
+    manager.addKeys(ENC, QStringLiteral("dave@example.org"), { QByteArray("already-authenticated") }, TrustLevel::Authenticated);
+    tst_QXmppAtmManager::authenticate(manager, QStringLiteral("dave@example.org"), QByteArray("already-authenticated"));
+    for (const char *o : OWNERS) {
+        const QString owner = QString::fromLatin1(o);
+        const bool inScope = sender == QStringLiteral("alice@example.org") || sender == owner;
+        for (int t = 1; t >= 0; t--) {
+            const QByteArray key = keyOf(o, t);
+            expect(scenario, "trust level after an unrelated, already authenticated key was authenticated again", owner, t, int(level(manager, owner, key)), int(TrustLevel::Undecided));
+            expect(scenario, "held back under the sender key after an unrelated, already authenticated key was authenticated again", owner, t, held(storage, senderKey, owner, key), inScope ? (t ? 1 : 2) : 0);
+        }
     }
     // the sender key is decided later
     if (later == DistrustSenderThenAuthenticate) {
